@@ -326,6 +326,45 @@ def run(tier, seed):
         if not okv:
             run.fail({"schema": date_union, "value": repr(val), "got": got[:200], "tags": ["date-union"]},
                      "a datum conforming to a branch of a union with a date type is not accepted under that branch", kind="oracle")
+    # a named type that carries a logical type (fixed + decimal), defined once and used again BY NAME: the logical datum
+    # (a Decimal) conforms at the by-name positions exactly as at the definition site; validate agrees with the writers
+    import decimal as _dec
+    money = {"type": "fixed", "name": "demo.Money", "size": 8, "logicalType": "decimal", "precision": 12, "scale": 2}
+    amt = _dec.Decimal("12.34")
+    probes = {
+        "field-by-name": ({"type": "record", "name": "T", "fields": [{"name": "a", "type": money}, {"name": "b", "type": "demo.Money"}]}, {"a": amt, "b": amt}),
+        "array-by-name": ({"type": "record", "name": "T", "fields": [{"name": "a", "type": money}, {"name": "bs", "type": {"type": "array", "items": "demo.Money"}}]}, {"a": amt, "bs": [amt, amt]}),
+        "union-by-name": ({"type": "record", "name": "T", "fields": [{"name": "a", "type": money}, {"name": "b", "type": ["null", "demo.Money"]}]}, {"a": amt, "b": amt}),
+        "map-of-union-by-name": ({"type": "record", "name": "T", "fields": [{"name": "a", "type": money}, {"name": "m", "type": {"type": "map", "values": ["string", "demo.Money"]}}]}, {"a": amt, "m": {"k": amt, "l": "s"}}),
+        "raw-bytes-by-name": ({"type": "record", "name": "T", "fields": [{"name": "a", "type": money}, {"name": "b", "type": "demo.Money"}]}, {"a": amt, "b": b"\x00" * 8}),
+    }
+    for pname, (sch, datum) in probes.items():
+        for parsed_ in (False, True):
+            obj = fastavro.parse_schema(copy.deepcopy(sch)) if parsed_ else copy.deepcopy(sch)
+            run.cov["evaluations"] += 1
+            run.tag("named-logical-by-name")
+            res = {}
+            try:
+                res["validate"] = _validate(datum, obj, raise_errors=False)
+            except Exception as e:  # noqa
+                res["validate"] = "raises " + exc_class(e)
+            for wname, vflag in (("writer", False), ("writer(validator=True)", True)):
+                try:
+                    fo = _io.BytesIO()
+                    fastavro.writer(fo, obj, [datum], validator=vflag)
+                    back = list(fastavro.reader(_io.BytesIO(fo.getvalue())))
+                    res[wname] = "ok" if len(back) == 1 and back[0]["a"] == amt else "read back %r" % (back,)
+                except Exception as e:  # noqa
+                    res[wname] = "raises " + exc_class(e)
+            try:
+                fastavro.schemaless_writer(_io.BytesIO(), obj, datum)
+                res["schemaless_writer"] = "ok"
+            except Exception as e:  # noqa
+                res["schemaless_writer"] = "raises " + exc_class(e)
+            if res != {"validate": True, "writer": "ok", "writer(validator=True)": "ok", "schemaless_writer": "ok"}:
+                run.fail({"schema": sch, "value": repr(datum), "parsed_schema": parsed_, "results": res, "tags": ["named-logical-by-name", pname]},
+                         "a conforming datum at a position that refers by name to a named type with a logical type is not accepted "
+                         "by validate and all writers alike", kind="oracle")
     for ftype, dflt in (("bytes", "ab"), ({"type": "fixed", "name": "Fx", "size": 2}, "ab")):
         sch = {"type": "record", "name": "R", "fields": [{"name": "i", "type": "int"}, {"name": "b", "type": ftype, "default": dflt}]}
         run.cov["evaluations"] += 1
